@@ -38,6 +38,10 @@ def run(tier, seed, t0):
     # one layout under ASan as well (scalar tail code, harness buffers)
     jobs.append(Job("asan-l3-bg7", "drv_c12", "asan", "spqlios-fma", ["--seed", seed, "--l", 3, "--Bgbit", 7, "--log2count", 20], timeout=1800))
 
+    for i, j in enumerate(jobs):      # process history: every other job decomposes under another layout first
+        if i % 2 == 0:
+            j.args = j.args + ["--prelude", "1"]
+
     def post(results, agg):
         viols = []
         dig = {}
